@@ -13,6 +13,7 @@ import (
 	"mellium.im/xmpp/mux"
 	"mellium.im/xmpp/stanza"
 	"verif.sim/simrt"
+	"verif.sim/simrt/simnet"
 )
 
 // C07 — every incoming get/set IQ is answered exactly once; replies are never answered.
@@ -57,6 +58,13 @@ func runC07(rc *RC) {
 	if e == nil {
 		return
 	}
+	// the fault-injecting configuration: from its k-th Write on the transport refuses everything it is given (once, or
+	// for good). A reply may then be lost, but only together with Serve ending in an error: a Serve that carries on
+	// as if nothing happened leaves a request without its reply.
+	wf := ch.Chance("faults", 1, 5)
+	if wf {
+		e.SUT.WriteErrAt, e.SUT.WriteErr, e.SUT.WritePartial, e.SUT.WriteErrOnce = e.SUT.Writes+ch.Range("faults", 1, 8), simnet.ErrInjected, 0, ch.Chance("faults", 1, 2)
+	}
 	variant := ch.Int("workload", 3) // 0 plain handler, 1 mux with registered IQ handlers, 2 mux without handlers
 	nIn := ch.Range("workload", 1, 12)
 	withRequester := ch.Chance("workload", 1, 3)
@@ -78,6 +86,10 @@ func runC07(rc *RC) {
 		if ch.Chance("workload", 1, 2) {
 			// another entity, another resource of our own account, or our own account's bare address
 			in.from = []string{"other@example.net/r", "other@example.net/r", e.Local.Bare().String() + "/laptop", "example.net"}[ch.Int("workload", 4)]
+			if ch.Chance("workload", 1, 12) {
+				// not an address at all: no reply can be addressed, so the only way out is a stream error (c4)
+				in.from = []string{"@example.org/x", "a@/x", "a@b@c"}[ch.Int("workload", 3)]
+			}
 		}
 		if ch.Chance("workload", 1, 3) {
 			in.payload = "z"
@@ -134,11 +146,11 @@ func runC07(rc *RC) {
 	for _, in := range ins {
 		hasCollide = hasCollide || in.collide
 	}
-	rc.Describe("strategy=%s s2s=%v ws=%v chunk=%v variant=%d n=%d collide=%v", strat, opts.S2S, opts.WS, opts.Chunk, variant, nIn, hasCollide)
+	rc.Describe("strategy=%s s2s=%v ws=%v chunk=%v variant=%d n=%d collide=%v writefault=%v at=%d once=%v", strat, opts.S2S, opts.WS, opts.Chunk, variant, nIn, hasCollide, wf, e.SUT.WriteErrAt, e.SUT.WriteErrOnce)
 	for _, in := range ins {
 		rc.Describe("%s", in.xml)
 	}
-	rc.CaseKey = fmt.Sprint(variant, hasCollide, opts.S2S, opts.WS)
+	rc.CaseKey = fmt.Sprint(variant, hasCollide, opts.S2S, opts.WS, wf)
 	byIdx := func(start *xml.StartElement, r xml.TokenReader) *c07In {
 		// the payload's n attribute identifies the stanza even without an id
 		for {
@@ -234,6 +246,13 @@ func runC07(rc *RC) {
 				err = t.EncodeElement(readerMarshaler{xmlstream.MultiReader(xmlstream.Token(st), p)}, st)
 			default:
 				_, err = xmlstream.Copy(t, p)
+			}
+			if err != nil && wf {
+				in.hErr = true
+				if errAt < 0 {
+					errAt = in.idx
+				}
+				return err
 			}
 			if err != nil {
 				rc.Infraf("handler write failed: %v", err)
